@@ -763,6 +763,19 @@ package optics
 //@   model get2(self, s) = self.b.get(s)
 //@   model put(self, s, v1, v2) = self.a.put(self.b.put(s, v2), v1)
 
+//@ func ForShape2
+//@   props C01 C04
+//@   opt overflow=off
+//@   opt lemmas=nth_take,len_take
+//@   ghost all := flatten(fieldsof(pureof(rtypeof(T))), 0, [])
+//@   ghost off1 := ite(len(attr) == 0, loc(firsttype(all, rtypeof(A))), loc(firstname(all, attr[0])))
+//@   ghost off2 := ite(len(attr) == 0, loc(firsttype(all, rtypeof(B))), loc(firstname(all, attr[1])))
+//@   may_panic_when true
+//@   ensures result != nil
+//@   ensures component_1_is_the_field_in_position_1: forall s T :: result.get1(s) == fget(s, off1, A)
+//@   ensures component_2_is_the_field_in_position_2: forall s T :: result.get2(s) == fget(s, off2, B)
+//@   ensures writes_every_component_into_its_field: forall s T, v1 A, v2 B :: result.put(s, v1, v2) == fput(fput(s, off2, v2), off1, v1)
+
 //@ interface Lens3
 //@   ghostmethod get1(s S) : A
 //@   ghostmethod get2(s S) : B
@@ -785,6 +798,21 @@ package optics
 //@   model get2(self, s) = self.b.get(s)
 //@   model get3(self, s) = self.c.get(s)
 //@   model put(self, s, v1, v2, v3) = self.a.put(self.b.put(self.c.put(s, v3), v2), v1)
+
+//@ func ForShape3
+//@   props C01 C04
+//@   opt overflow=off
+//@   opt lemmas=nth_take,len_take
+//@   ghost all := flatten(fieldsof(pureof(rtypeof(T))), 0, [])
+//@   ghost off1 := ite(len(attr) == 0, loc(firsttype(all, rtypeof(A))), loc(firstname(all, attr[0])))
+//@   ghost off2 := ite(len(attr) == 0, loc(firsttype(all, rtypeof(B))), loc(firstname(all, attr[1])))
+//@   ghost off3 := ite(len(attr) == 0, loc(firsttype(all, rtypeof(C))), loc(firstname(all, attr[2])))
+//@   may_panic_when true
+//@   ensures result != nil
+//@   ensures component_1_is_the_field_in_position_1: forall s T :: result.get1(s) == fget(s, off1, A)
+//@   ensures component_2_is_the_field_in_position_2: forall s T :: result.get2(s) == fget(s, off2, B)
+//@   ensures component_3_is_the_field_in_position_3: forall s T :: result.get3(s) == fget(s, off3, C)
+//@   ensures writes_every_component_into_its_field: forall s T, v1 A, v2 B, v3 C :: result.put(s, v1, v2, v3) == fput(fput(fput(s, off3, v3), off2, v2), off1, v1)
 
 //@ interface Lens4
 //@   ghostmethod get1(s S) : A
@@ -811,6 +839,23 @@ package optics
 //@   model get3(self, s) = self.c.get(s)
 //@   model get4(self, s) = self.d.get(s)
 //@   model put(self, s, v1, v2, v3, v4) = self.a.put(self.b.put(self.c.put(self.d.put(s, v4), v3), v2), v1)
+
+//@ func ForShape4
+//@   props C01 C04
+//@   opt overflow=off
+//@   opt lemmas=nth_take,len_take
+//@   ghost all := flatten(fieldsof(pureof(rtypeof(T))), 0, [])
+//@   ghost off1 := ite(len(attr) == 0, loc(firsttype(all, rtypeof(A))), loc(firstname(all, attr[0])))
+//@   ghost off2 := ite(len(attr) == 0, loc(firsttype(all, rtypeof(B))), loc(firstname(all, attr[1])))
+//@   ghost off3 := ite(len(attr) == 0, loc(firsttype(all, rtypeof(C))), loc(firstname(all, attr[2])))
+//@   ghost off4 := ite(len(attr) == 0, loc(firsttype(all, rtypeof(D))), loc(firstname(all, attr[3])))
+//@   may_panic_when true
+//@   ensures result != nil
+//@   ensures component_1_is_the_field_in_position_1: forall s T :: result.get1(s) == fget(s, off1, A)
+//@   ensures component_2_is_the_field_in_position_2: forall s T :: result.get2(s) == fget(s, off2, B)
+//@   ensures component_3_is_the_field_in_position_3: forall s T :: result.get3(s) == fget(s, off3, C)
+//@   ensures component_4_is_the_field_in_position_4: forall s T :: result.get4(s) == fget(s, off4, D)
+//@   ensures writes_every_component_into_its_field: forall s T, v1 A, v2 B, v3 C, v4 D :: result.put(s, v1, v2, v3, v4) == fput(fput(fput(fput(s, off4, v4), off3, v3), off2, v2), off1, v1)
 
 //@ interface Lens5
 //@   ghostmethod get1(s S) : A
@@ -840,6 +885,25 @@ package optics
 //@   model get4(self, s) = self.d.get(s)
 //@   model get5(self, s) = self.e.get(s)
 //@   model put(self, s, v1, v2, v3, v4, v5) = self.a.put(self.b.put(self.c.put(self.d.put(self.e.put(s, v5), v4), v3), v2), v1)
+
+//@ func ForShape5
+//@   props C01 C04
+//@   opt overflow=off
+//@   opt lemmas=nth_take,len_take
+//@   ghost all := flatten(fieldsof(pureof(rtypeof(T))), 0, [])
+//@   ghost off1 := ite(len(attr) == 0, loc(firsttype(all, rtypeof(A))), loc(firstname(all, attr[0])))
+//@   ghost off2 := ite(len(attr) == 0, loc(firsttype(all, rtypeof(B))), loc(firstname(all, attr[1])))
+//@   ghost off3 := ite(len(attr) == 0, loc(firsttype(all, rtypeof(C))), loc(firstname(all, attr[2])))
+//@   ghost off4 := ite(len(attr) == 0, loc(firsttype(all, rtypeof(D))), loc(firstname(all, attr[3])))
+//@   ghost off5 := ite(len(attr) == 0, loc(firsttype(all, rtypeof(E))), loc(firstname(all, attr[4])))
+//@   may_panic_when true
+//@   ensures result != nil
+//@   ensures component_1_is_the_field_in_position_1: forall s T :: result.get1(s) == fget(s, off1, A)
+//@   ensures component_2_is_the_field_in_position_2: forall s T :: result.get2(s) == fget(s, off2, B)
+//@   ensures component_3_is_the_field_in_position_3: forall s T :: result.get3(s) == fget(s, off3, C)
+//@   ensures component_4_is_the_field_in_position_4: forall s T :: result.get4(s) == fget(s, off4, D)
+//@   ensures component_5_is_the_field_in_position_5: forall s T :: result.get5(s) == fget(s, off5, E)
+//@   ensures writes_every_component_into_its_field: forall s T, v1 A, v2 B, v3 C, v4 D, v5 E :: result.put(s, v1, v2, v3, v4, v5) == fput(fput(fput(fput(fput(s, off5, v5), off4, v4), off3, v3), off2, v2), off1, v1)
 
 //@ interface Lens6
 //@   ghostmethod get1(s S) : A
@@ -872,6 +936,27 @@ package optics
 //@   model get5(self, s) = self.e.get(s)
 //@   model get6(self, s) = self.f.get(s)
 //@   model put(self, s, v1, v2, v3, v4, v5, v6) = self.a.put(self.b.put(self.c.put(self.d.put(self.e.put(self.f.put(s, v6), v5), v4), v3), v2), v1)
+
+//@ func ForShape6
+//@   props C01 C04
+//@   opt overflow=off
+//@   opt lemmas=nth_take,len_take
+//@   ghost all := flatten(fieldsof(pureof(rtypeof(T))), 0, [])
+//@   ghost off1 := ite(len(attr) == 0, loc(firsttype(all, rtypeof(A))), loc(firstname(all, attr[0])))
+//@   ghost off2 := ite(len(attr) == 0, loc(firsttype(all, rtypeof(B))), loc(firstname(all, attr[1])))
+//@   ghost off3 := ite(len(attr) == 0, loc(firsttype(all, rtypeof(C))), loc(firstname(all, attr[2])))
+//@   ghost off4 := ite(len(attr) == 0, loc(firsttype(all, rtypeof(D))), loc(firstname(all, attr[3])))
+//@   ghost off5 := ite(len(attr) == 0, loc(firsttype(all, rtypeof(E))), loc(firstname(all, attr[4])))
+//@   ghost off6 := ite(len(attr) == 0, loc(firsttype(all, rtypeof(F))), loc(firstname(all, attr[5])))
+//@   may_panic_when true
+//@   ensures result != nil
+//@   ensures component_1_is_the_field_in_position_1: forall s T :: result.get1(s) == fget(s, off1, A)
+//@   ensures component_2_is_the_field_in_position_2: forall s T :: result.get2(s) == fget(s, off2, B)
+//@   ensures component_3_is_the_field_in_position_3: forall s T :: result.get3(s) == fget(s, off3, C)
+//@   ensures component_4_is_the_field_in_position_4: forall s T :: result.get4(s) == fget(s, off4, D)
+//@   ensures component_5_is_the_field_in_position_5: forall s T :: result.get5(s) == fget(s, off5, E)
+//@   ensures component_6_is_the_field_in_position_6: forall s T :: result.get6(s) == fget(s, off6, F)
+//@   ensures writes_every_component_into_its_field: forall s T, v1 A, v2 B, v3 C, v4 D, v5 E, v6 F :: result.put(s, v1, v2, v3, v4, v5, v6) == fput(fput(fput(fput(fput(fput(s, off6, v6), off5, v5), off4, v4), off3, v3), off2, v2), off1, v1)
 
 //@ interface Lens7
 //@   ghostmethod get1(s S) : A
@@ -907,6 +992,29 @@ package optics
 //@   model get6(self, s) = self.f.get(s)
 //@   model get7(self, s) = self.g.get(s)
 //@   model put(self, s, v1, v2, v3, v4, v5, v6, v7) = self.a.put(self.b.put(self.c.put(self.d.put(self.e.put(self.f.put(self.g.put(s, v7), v6), v5), v4), v3), v2), v1)
+
+//@ func ForShape7
+//@   props C01 C04
+//@   opt overflow=off
+//@   opt lemmas=nth_take,len_take
+//@   ghost all := flatten(fieldsof(pureof(rtypeof(T))), 0, [])
+//@   ghost off1 := ite(len(attr) == 0, loc(firsttype(all, rtypeof(A))), loc(firstname(all, attr[0])))
+//@   ghost off2 := ite(len(attr) == 0, loc(firsttype(all, rtypeof(B))), loc(firstname(all, attr[1])))
+//@   ghost off3 := ite(len(attr) == 0, loc(firsttype(all, rtypeof(C))), loc(firstname(all, attr[2])))
+//@   ghost off4 := ite(len(attr) == 0, loc(firsttype(all, rtypeof(D))), loc(firstname(all, attr[3])))
+//@   ghost off5 := ite(len(attr) == 0, loc(firsttype(all, rtypeof(E))), loc(firstname(all, attr[4])))
+//@   ghost off6 := ite(len(attr) == 0, loc(firsttype(all, rtypeof(F))), loc(firstname(all, attr[5])))
+//@   ghost off7 := ite(len(attr) == 0, loc(firsttype(all, rtypeof(G))), loc(firstname(all, attr[6])))
+//@   may_panic_when true
+//@   ensures result != nil
+//@   ensures component_1_is_the_field_in_position_1: forall s T :: result.get1(s) == fget(s, off1, A)
+//@   ensures component_2_is_the_field_in_position_2: forall s T :: result.get2(s) == fget(s, off2, B)
+//@   ensures component_3_is_the_field_in_position_3: forall s T :: result.get3(s) == fget(s, off3, C)
+//@   ensures component_4_is_the_field_in_position_4: forall s T :: result.get4(s) == fget(s, off4, D)
+//@   ensures component_5_is_the_field_in_position_5: forall s T :: result.get5(s) == fget(s, off5, E)
+//@   ensures component_6_is_the_field_in_position_6: forall s T :: result.get6(s) == fget(s, off6, F)
+//@   ensures component_7_is_the_field_in_position_7: forall s T :: result.get7(s) == fget(s, off7, G)
+//@   ensures writes_every_component_into_its_field: forall s T, v1 A, v2 B, v3 C, v4 D, v5 E, v6 F, v7 G :: result.put(s, v1, v2, v3, v4, v5, v6, v7) == fput(fput(fput(fput(fput(fput(fput(s, off7, v7), off6, v6), off5, v5), off4, v4), off3, v3), off2, v2), off1, v1)
 
 //@ interface Lens8
 //@   ghostmethod get1(s S) : A
@@ -945,6 +1053,31 @@ package optics
 //@   model get7(self, s) = self.g.get(s)
 //@   model get8(self, s) = self.h.get(s)
 //@   model put(self, s, v1, v2, v3, v4, v5, v6, v7, v8) = self.a.put(self.b.put(self.c.put(self.d.put(self.e.put(self.f.put(self.g.put(self.h.put(s, v8), v7), v6), v5), v4), v3), v2), v1)
+
+//@ func ForShape8
+//@   props C01 C04
+//@   opt overflow=off
+//@   opt lemmas=nth_take,len_take
+//@   ghost all := flatten(fieldsof(pureof(rtypeof(T))), 0, [])
+//@   ghost off1 := ite(len(attr) == 0, loc(firsttype(all, rtypeof(A))), loc(firstname(all, attr[0])))
+//@   ghost off2 := ite(len(attr) == 0, loc(firsttype(all, rtypeof(B))), loc(firstname(all, attr[1])))
+//@   ghost off3 := ite(len(attr) == 0, loc(firsttype(all, rtypeof(C))), loc(firstname(all, attr[2])))
+//@   ghost off4 := ite(len(attr) == 0, loc(firsttype(all, rtypeof(D))), loc(firstname(all, attr[3])))
+//@   ghost off5 := ite(len(attr) == 0, loc(firsttype(all, rtypeof(E))), loc(firstname(all, attr[4])))
+//@   ghost off6 := ite(len(attr) == 0, loc(firsttype(all, rtypeof(F))), loc(firstname(all, attr[5])))
+//@   ghost off7 := ite(len(attr) == 0, loc(firsttype(all, rtypeof(G))), loc(firstname(all, attr[6])))
+//@   ghost off8 := ite(len(attr) == 0, loc(firsttype(all, rtypeof(H))), loc(firstname(all, attr[7])))
+//@   may_panic_when true
+//@   ensures result != nil
+//@   ensures component_1_is_the_field_in_position_1: forall s T :: result.get1(s) == fget(s, off1, A)
+//@   ensures component_2_is_the_field_in_position_2: forall s T :: result.get2(s) == fget(s, off2, B)
+//@   ensures component_3_is_the_field_in_position_3: forall s T :: result.get3(s) == fget(s, off3, C)
+//@   ensures component_4_is_the_field_in_position_4: forall s T :: result.get4(s) == fget(s, off4, D)
+//@   ensures component_5_is_the_field_in_position_5: forall s T :: result.get5(s) == fget(s, off5, E)
+//@   ensures component_6_is_the_field_in_position_6: forall s T :: result.get6(s) == fget(s, off6, F)
+//@   ensures component_7_is_the_field_in_position_7: forall s T :: result.get7(s) == fget(s, off7, G)
+//@   ensures component_8_is_the_field_in_position_8: forall s T :: result.get8(s) == fget(s, off8, H)
+//@   ensures writes_every_component_into_its_field: forall s T, v1 A, v2 B, v3 C, v4 D, v5 E, v6 F, v7 G, v8 H :: result.put(s, v1, v2, v3, v4, v5, v6, v7, v8) == fput(fput(fput(fput(fput(fput(fput(fput(s, off8, v8), off7, v7), off6, v6), off5, v5), off4, v4), off3, v3), off2, v2), off1, v1)
 
 //@ interface Lens9
 //@   ghostmethod get1(s S) : A
@@ -986,3 +1119,30 @@ package optics
 //@   model get8(self, s) = self.h.get(s)
 //@   model get9(self, s) = self.i.get(s)
 //@   model put(self, s, v1, v2, v3, v4, v5, v6, v7, v8, v9) = self.a.put(self.b.put(self.c.put(self.d.put(self.e.put(self.f.put(self.g.put(self.h.put(self.i.put(s, v9), v8), v7), v6), v5), v4), v3), v2), v1)
+
+//@ func ForShape9
+//@   props C01 C04
+//@   opt overflow=off
+//@   opt lemmas=nth_take,len_take
+//@   ghost all := flatten(fieldsof(pureof(rtypeof(T))), 0, [])
+//@   ghost off1 := ite(len(attr) == 0, loc(firsttype(all, rtypeof(A))), loc(firstname(all, attr[0])))
+//@   ghost off2 := ite(len(attr) == 0, loc(firsttype(all, rtypeof(B))), loc(firstname(all, attr[1])))
+//@   ghost off3 := ite(len(attr) == 0, loc(firsttype(all, rtypeof(C))), loc(firstname(all, attr[2])))
+//@   ghost off4 := ite(len(attr) == 0, loc(firsttype(all, rtypeof(D))), loc(firstname(all, attr[3])))
+//@   ghost off5 := ite(len(attr) == 0, loc(firsttype(all, rtypeof(E))), loc(firstname(all, attr[4])))
+//@   ghost off6 := ite(len(attr) == 0, loc(firsttype(all, rtypeof(F))), loc(firstname(all, attr[5])))
+//@   ghost off7 := ite(len(attr) == 0, loc(firsttype(all, rtypeof(G))), loc(firstname(all, attr[6])))
+//@   ghost off8 := ite(len(attr) == 0, loc(firsttype(all, rtypeof(H))), loc(firstname(all, attr[7])))
+//@   ghost off9 := ite(len(attr) == 0, loc(firsttype(all, rtypeof(I))), loc(firstname(all, attr[8])))
+//@   may_panic_when true
+//@   ensures result != nil
+//@   ensures component_1_is_the_field_in_position_1: forall s T :: result.get1(s) == fget(s, off1, A)
+//@   ensures component_2_is_the_field_in_position_2: forall s T :: result.get2(s) == fget(s, off2, B)
+//@   ensures component_3_is_the_field_in_position_3: forall s T :: result.get3(s) == fget(s, off3, C)
+//@   ensures component_4_is_the_field_in_position_4: forall s T :: result.get4(s) == fget(s, off4, D)
+//@   ensures component_5_is_the_field_in_position_5: forall s T :: result.get5(s) == fget(s, off5, E)
+//@   ensures component_6_is_the_field_in_position_6: forall s T :: result.get6(s) == fget(s, off6, F)
+//@   ensures component_7_is_the_field_in_position_7: forall s T :: result.get7(s) == fget(s, off7, G)
+//@   ensures component_8_is_the_field_in_position_8: forall s T :: result.get8(s) == fget(s, off8, H)
+//@   ensures component_9_is_the_field_in_position_9: forall s T :: result.get9(s) == fget(s, off9, I)
+//@   ensures writes_every_component_into_its_field: forall s T, v1 A, v2 B, v3 C, v4 D, v5 E, v6 F, v7 G, v8 H, v9 I :: result.put(s, v1, v2, v3, v4, v5, v6, v7, v8, v9) == fput(fput(fput(fput(fput(fput(fput(fput(fput(s, off9, v9), off8, v8), off7, v7), off6, v6), off5, v5), off4, v4), off3, v3), off2, v2), off1, v1)
